@@ -49,3 +49,32 @@ pub fn rehashed_ok(m: &HashMap<u32, u32>) -> HashSet<u32> {
 pub fn counted_ok(m: &HashMap<u32, u32>) -> usize {
     m.values().filter(|v| **v > 3).count()
 }
+
+// ---- M-C16b controls: state that outlives one expansion (each must be reported) ----
+
+static CACHE: std::sync::LazyLock<std::sync::Mutex<HashMap<String, u32>>> = std::sync::LazyLock::new(Default::default);
+static COUNTER: std::sync::atomic::AtomicUsize = std::sync::atomic::AtomicUsize::new(0);
+thread_local! { static SEEN: std::cell::RefCell<Vec<u32>> = std::cell::RefCell::new(Vec::new()); }
+
+pub fn entropy_mutex_cache(key: &str) -> u32 {
+    let mut c = CACHE.lock().unwrap();
+    let n = c.len() as u32;
+    *c.entry(key.to_owned()).or_insert(n)
+}
+
+pub fn entropy_atomic_counter() -> usize {
+    COUNTER.fetch_add(1, std::sync::atomic::Ordering::Relaxed)
+}
+
+pub fn entropy_thread_local(x: u32) -> usize {
+    SEEN.with(|s| {
+        s.borrow_mut().push(x);
+        s.borrow().len()
+    })
+}
+
+// must stay silent: a constant behind a LazyLock
+static TABLE: std::sync::LazyLock<Vec<u32>> = std::sync::LazyLock::new(|| vec![1, 2, 3]);
+pub fn entropy_const_ok(i: usize) -> u32 {
+    TABLE.get(i).copied().unwrap_or(0)
+}
